@@ -1,13 +1,22 @@
 """C15 — complex interval operations contain every possible exact result."""
 from props import _civ
 import cplx_iv_ops as CI
+import iv_fun_ops as IVF
 
 LEVEL = "translation_validation"
-LEAN_MODULES = ["Props.C14"]
+LEAN_MODULES = ["Props.C14", "Props.C14fun"]
 ASSUMPTIONS = ["mpci_* arithmetic is modelled bit-exactly in Lean on top of the real interval operations whose containment is proved in Props/C14.lean "
                "for finite endpoints; containment of the complex results is decided on sample points of the input rectangles in exact arithmetic",
-               "mpci_exp/log/cos/sin/pow/gamma are not covered"]
+               "iv.mpc exp / log / cos / sin / abs / arg (and again mul / div) are NOT modelled: rectangles are SAMPLED (structured + steered "
+               "generators, precisions 2..200); for each sample point z = x+iy the enclosure of the exact real and imaginary parts is built from "
+               "verified REAL enclosures (Props/C14fun.lean) of exp, cos, sin, cosh, sinh, log, sqrt, atan, pi with exact dyadic / rational "
+               "interval arithmetic in Python (e^x cos y + i e^x sin y; cos x cosh y - i sin x sinh y; sin x cosh y + i cos x sinh y; "
+               "(1/2) log(x^2+y^2) + i atan2(y, x); sqrt(x^2+y^2)) -- this combination step is the only unverified part of the decision; "
+               "undecided points are counted, never passed",
+               "mpci_pow with non-integer exponents and mpci_gamma / rgamma / loggamma / factorial are not covered",
+               "mpmath's mp context is used only to steer the generators, never in a decision"]
 
 
 def run(ctx):
-    return _civ.run_civ(ctx, "C15", CI.CI_OPS + ["malformed"], 30000, 1000000)
+    res = _civ.run_civ(ctx, "C15", CI.CI_OPS + ["malformed"], 30000, 1000000)
+    return IVF.merge_into(res, IVF.run_ivfun(ctx, "C15"))
